@@ -296,9 +296,110 @@ def gen_list_all(seed, big):
     return out
 
 
+def strip_ws(t):
+    return ''.join(t.split())
+
+
+def gen_inline(seed, big):
+    """C02/C03/C14: inline and mixed layouts; the non-whitespace text of the output is the non-whitespace text of the
+    input minus the removable extents of the ready (default strategy) elements"""
+    rnd = random.Random(seed + 5)
+    out = []
+    words = ['abc', 'x = 1;', 'これは期間限定', 'é', '😀 ok', '}', 'if (a) {', '']
+    blanks = ['', ' ', '  ', '\t', '\n', '\n  ', ' \n', '\n\n']
+    for _ in range(300 if big else 100):
+        ds, de = rnd.choice([('<', '>'), ('<!-- <', '> -->'), ('/* <', '> */')])
+        parts, keep = [], []
+        for _ in range(rnd.randint(1, 3)):
+            pre = rnd.choice(words) + rnd.choice(blanks)
+            parts.append(pre); keep.append(pre)
+            ready = rnd.random() < 0.6
+            tag, attrs = rnd.choice([(TL, f"to='{PAST}'"), (RM, "name='f1'")]) if ready else rnd.choice([(TL, f"to='{FUTURE}'"), (RM, "name='zz'"), (RM, "name='f1' skip")])
+            body = rnd.choice(blanks) + rnd.choice(words) + rnd.choice(blanks)
+            el = f"{ds}{tag} {attrs}{de}{body}{ds}/{tag}{de}"
+            parts.append(el)
+            if not ready:
+                keep.append(el)
+            post = rnd.choice(blanks) + rnd.choice(words)
+            parts.append(post); keep.append(post)
+            parts.append('\n'); keep.append('\n')
+        src = ''.join(parts)
+        exp = strip_ws(''.join(keep))
+        if any(d in exp.replace(ds + TL, '').replace(ds + RM, '').replace(ds + '/', '') for d in ()):
+            continue
+        def oracle(r, exp=exp, src=src):
+            if not r.get('ok'):
+                return 'clean panicked: ' + str(r.get('panic'))[:160]
+            got = strip_ws(r['output'])
+            if got != exp:
+                return f'non-whitespace text differs: expected {exp!r} got {got!r}'
+            return None
+        out.append((dict(cfg(), mode='clean', source=src, ds=ds, de=de), oracle))
+    return out
+
+
+def gen_dedent(seed, big):
+    """C12: unwrap-block (not on the first line) dedents every inner line by (first inner indent - tag indent), exactly"""
+    rnd = random.Random(seed + 6)
+    out = []
+    for _ in range(200 if big else 60):
+        unit = rnd.choice(['  ', '    ', '\t'])
+        t = rnd.randint(0, 2)
+        f = t + rnd.randint(0, 2)
+        n = rnd.randint(1, 4)
+        extras = [0] + [rnd.randint(0, 2) for _ in range(n - 1)]
+        texts = [rnd.choice(['x();', 'これ', 'y = 2; // é']) + str(i) for i in range(n)]
+        final_nl = rnd.random() < 0.7
+        tail = rnd.random() < 0.7
+        src = 'q\n' + unit * t + f"<{RM} name='f1' unwrap-block>\n" + unit * t + 'if a {\n'
+        exp = 'q\n'
+        for e, tx in zip(extras, texts):
+            src += unit * (f + e) + tx + '\n'
+            exp += unit * (t + e) + tx + '\n'
+        src += unit * t + '}\n' + unit * t + f"</{RM}>"
+        if tail:
+            src += '\nz' + ('\n' if final_nl else '')
+            exp += 'z' + ('\n' if final_nl else '')
+        elif final_nl:
+            src += '\n'
+        def oracle(r, exp=exp):
+            if not r.get('ok'):
+                return 'clean panicked: ' + str(r.get('panic'))[:160]
+            if r['output'].rstrip('\n') != exp.rstrip('\n'):
+                return f'dedent differs: expected {exp!r} got {r["output"]!r}'
+            return None
+        out.append((dict(cfg(), mode='clean', source=src, ds='<', de='>'), oracle))
+    return out
+
+
+def gen_blanklines(seed, big):
+    """C13: block-style removal with b blank lines before and a after leaves a+b-[a>0 and b>0] blank lines; lines intact"""
+    out = []
+    for ind in ('', '  ', '\t'):
+        for b in range(0, 4):
+            for a in range(0, 4):
+                for blank in ('', '  '):
+                    src = ind + 'X é\n' + (blank + '\n') * b + ind + f"<{RM} name='f1'>\n" + ind + '  gone\n' + ind + f"</{RM}>\n" + (blank + '\n') * a + ind + 'Y\n'
+                    want = a + b - (1 if a > 0 and b > 0 else 0)
+                    def oracle(r, want=want, ind=ind):
+                        if not r.get('ok'):
+                            return 'clean panicked: ' + str(r.get('panic'))[:160]
+                        lines = r['output'].split('\n')
+                        nb = [l for l in lines if l.strip()]
+                        if nb != [ind + 'X é', ind + 'Y']:
+                            return f'surviving lines not intact: {nb}'
+                        i0 = lines.index(ind + 'X é'); i1 = lines.index(ind + 'Y')
+                        if i1 - i0 - 1 != want:
+                            return f'{i1 - i0 - 1} blank lines remain, expected {want}: {r["output"]!r}'
+                        return None
+                    out.append((dict(cfg(), mode='clean', source=src, ds='<', de='>'), oracle))
+    return out
+
+
 GENERATORS = {
     'C01': [gen_totality], 'C04': [gen_identity], 'C07': [gen_partition], 'C05': [gen_expiry], 'C06': [gen_marker],
-    'C09': [gen_grammar], 'C02': [gen_blocks], 'C03': [gen_blocks], 'C11': [gen_blocks], 'C17': [gen_list_all],
+    'C09': [gen_grammar], 'C02': [gen_blocks, gen_inline], 'C03': [gen_blocks, gen_inline], 'C11': [gen_blocks], 'C17': [gen_list_all],
+    'C12': [gen_dedent], 'C13': [gen_blanklines], 'C14': [gen_inline],
 }
 
 
